@@ -32,7 +32,7 @@ ASSUMPTIONS = [
     "files are only edited by the harness between runs, never during a run",
 ]
 BUDGET = {"quick": (260, 4), "thorough": (64000, 16)}
-REQUIRED = ["gens>=3", "alter", "restore", "nested", "nested_depth>=3", "sf", "new_format_added", "failed_recorded", "nested_history_begun_later"]
+REQUIRED = ["gens>=3", "alter", "restore", "nested", "nested_depth>=3", "sf", "new_format_added", "failed_recorded", "nested_history_begun_later", "file_appears_later"]
 CLI = refhash.CLI_FORMATS
 
 FILES = ["a.txt", "sub/a.txt", "cafe\u0301.txt", "sub2/b.bin", "sub/b.bin", "sub/deep/c c.txt", "sub/deep/er/est/d.mov", "sub/\u212bngstrom 100%.mov"]
@@ -55,7 +55,14 @@ def _scenario(draw):
     # late: the outer history records everything first and the nested histories are begun afterwards, at any later point
     # (their first generation then meets files - and same-named files - that the parent has on record already)
     late = bool(nested) and draw(st.sampled_from([False, False, True]))
-    for i in range(ngen + len(nested)):
+    total = ngen + len(nested)
+    # some files only come into being before a later generation (their first record is younger than that of files with
+    # the same history-relative path elsewhere)
+    appear = {}
+    if total >= 2 and len(files) >= 2 and draw(st.sampled_from([False, False, True])):
+        for f in draw(st.lists(st.sampled_from(files), min_size=1, max_size=2, unique=True)):
+            appear[f] = draw(st.integers(1, total - 1))
+    for i in range(total):
         fm = draw(st.lists(st.sampled_from(CLI), min_size=1, max_size=draw(st.sampled_from([1, 1, 2, 2, 3, 6])), unique=True))
         if late:
             root = "" if i == 0 else draw(st.sampled_from(nested + nested + [""]))
@@ -63,17 +70,18 @@ def _scenario(draw):
             root = nested[i]
         else:
             root = draw(st.sampled_from(nested)) if nested and draw(st.integers(0, 3)) == 0 else ""
-        scope = [f for f in files if root == "" or f.startswith(root + "/")]
-        mode = draw(st.sampled_from(["folder", "folder", "sf"]))
+        scope = [f for f in files if (root == "" or f.startswith(root + "/")) and appear.get(f, 0) <= i]
+        mode = draw(st.sampled_from(["folder", "folder", "sf"])) if scope else "folder"
         sel = None
         if mode == "sf":
             sel = draw(st.lists(st.sampled_from(scope), min_size=1, max_size=len(scope), unique=True))
         edits = {}
         if i >= (1 if late else max(1, len(nested))):
             for f in files:
-                edits[f] = draw(st.sampled_from(["keep", "keep", "keep", "alter", "restore"]))
+                if appear.get(f, 0) < i:
+                    edits[f] = draw(st.sampled_from(["keep", "keep", "keep", "alter", "restore"]))
         gens.append({"formats": fm, "root": root, "sf": sel, "edits": edits})
-    return {"files": files, "nested": nested, "gens": gens, "late": late}
+    return {"files": files, "nested": nested, "gens": gens, "late": late, "appear": appear}
 
 
 def strategy(tier):
@@ -99,6 +107,18 @@ def enumerated(tier):
                     {"formats": b, "root": "", "sf": None, "edits": {}},
                 ],
             }
+    # a nested history begun after the outer one had recorded its files, among them one with the same relative path as a
+    # file of the outer history; and a file that appears later beside a namesake in the other history
+    for fa, fb in ((["md5"], ["md5"]), (["xxh64"], ["md5", "xxh64"]), (["c4", "sha1"], ["sha1"])):
+        for sf in (None, ["sub/a.txt"]):
+            yield {"files": ["a.txt", "sub/a.txt", "sub/b.bin"], "nested": ["sub"], "late": True, "appear": {}, "gens": [
+                {"formats": fa, "root": "", "sf": None, "edits": {}}, {"formats": fb, "root": "sub", "sf": sf, "edits": {}},
+                {"formats": fa, "root": "", "sf": None, "edits": {}}, {"formats": fb, "root": "", "sf": None, "edits": {"sub/a.txt": "alter"}},
+                {"formats": fb, "root": "", "sf": None, "edits": {"sub/a.txt": "restore"}}]}
+            for late_file in ("a.txt", "sub/a.txt"):
+                yield {"files": ["a.txt", "sub/a.txt", "sub/b.bin"], "nested": ["sub"], "late": False, "appear": {late_file: 2}, "gens": [
+                    {"formats": fb, "root": "sub", "sf": None, "edits": {}}, {"formats": fa, "root": "", "sf": None, "edits": {}},
+                    {"formats": fa, "root": "", "sf": sf and [late_file], "edits": {}}, {"formats": fb, "root": "", "sf": None, "edits": {late_file: "alter"}}]}
     if tier == "thorough":
         # all 21^3 = 9261 sequences of length 3 over the subsets of size <= 2
         yield from _enum_triples()
@@ -122,11 +142,21 @@ def run_case(scn, ctx):
     restores = 0
     fmt_change = any(set(a["formats"]) != set(b["formats"]) for a, b in zip(gens, gens[1:]))
     with World("c04") as w:
+        appear = scn.get("appear") or {}
+        w.mkdir("R")
+        for r_ in scn["nested"] or []:
+            w.mkdir("R/" + r_)
         for f in files:
-            w.put("R/" + f, BASE[f])
-            content[f] = content_bytes(BASE[f])
+            if not appear.get(f):
+                w.put("R/" + f, BASE[f])
+                content[f] = content_bytes(BASE[f])
         created = []
         for gi, g in enumerate(gens):
+            for f in files:
+                if appear.get(f) == gi:
+                    w.put("R/" + f, BASE[f])
+                    content[f] = content_bytes(BASE[f])
+                    ctx.event("file_appears_later")
             for f, e in g["edits"].items():
                 if e == "alter":
                     new = content[f] + b"!%d" % gi
@@ -151,7 +181,7 @@ def run_case(scn, ctx):
                 return "R" + ("/" + best if best else "")
 
             allh = ["R"] + ["R/" + r for r in created]
-            scope = [f for f in files if g["root"] == "" or f.startswith(g["root"] + "/")]
+            scope = [f for f in files if (g["root"] == "" or f.startswith(g["root"] + "/")) and f in content]
             sealed = list(g["sf"]) if g["sf"] else scope
             before = {h: len(w.manifests(h)) for h in allh}
             res = w.create(root, g["formats"], sf=["R/" + s for s in g["sf"]] if g["sf"] else None)
